@@ -57,6 +57,8 @@ ASSUMPTIONS = [
     "over-long packet withheld when parse_bad_pkts=False) are checked by construction in addition",
     "warnings are compared by (category, text) between the two library computations, never against text of my own",
     "generators are advanced by one thread; no pre-emption inside a next() call",
+    "a generator whose own source fails with an injected I/O error (disk EIO, connection reset, receive timeout) may raise "
+    "that error; what it yielded before must be a prefix of the alone-results; every other generator is judged in full",
 ]
 
 
@@ -69,7 +71,8 @@ def vacuity(agg):
 
 EXPECTED_PROBES = ("gen_switch", "gen_close", "load_between_next", "direct_parse_between", "unknown_apid_packet",
                    "ambiguous_packet", "dead_sub_packet", "long_packet", "reporting_on", "reporting_off", "skip_bad",
-                   "headers_only", "shared_definition_2plus", "socket_source", "file_source", "two_definitions")
+                   "headers_only", "shared_definition_2plus", "socket_source", "file_source", "two_definitions",
+                   "source_fault_eio", "source_fault_rst", "source_fault_stall_timeout")
 
 _packets = factory.import_library()
 import lxml.etree as _ET  # noqa: E402
@@ -132,6 +135,7 @@ def run(ch, render=False):
     # ---- generators: options, streams, sources ---------------------------------------------------
     n_gens = ch.weighted([(2, 2), (2, 1), (2, 3), (1, 4), (1, 6)], "n_gens")
     enabled = {f: ch.chance(2, 3, "en_" + f) for f in ("gen_close", "load_between_next", "direct_parse_between")}
+    enabled["source_fault"] = ch.chance(1, 3, "en_source_fault")
     gens = []
     replaced = 0
     other_xml = None
@@ -210,7 +214,14 @@ def run(ch, render=False):
                     w.probe({"unknown": "unknown_apid_packet", "ambiguous": "ambiguous_packet", "dead_sub": "dead_sub_packet",
                              "long": "long_packet"}[cat])
         srckind = ch.weighted([(4, "bytes"), (3, "file"), (3, "socket")], "src")
-        gens.append(dict(di=di, opts=opts, k=k, rs=rs, pkts=pkts, cats=cats, src=srckind))
+        # source faults: ONE generator's disk or link fails mid-stream; the others must not notice
+        inject = "none"
+        if enabled["source_fault"]:
+            if srckind == "file":
+                inject = ch.weighted([(3, "none"), (1, "eio")], "inject")
+            elif srckind == "socket":
+                inject = ch.weighted([(3, "none"), (1, "rst"), (1, "stall_timeout")], "inject")
+        gens.append(dict(di=di, opts=opts, k=k, rs=rs, pkts=pkts, cats=cats, src=srckind, inject=inject))
     if replaced:
         w.probe("replaced_raising_packet", replaced)
 
@@ -246,22 +257,34 @@ def run(ch, render=False):
             source = stream
         elif g["src"] == "file":
             w.probe("file_source")
-            source = io.BufferedReader(SimRaw(w, stream, name=f"disk{gi}"), buffer_size=ch.pick((8192, 16, 1), "bufsize"))
+            fail_at = ch.draw(4, "eio_at") if g["inject"] == "eio" else None
+            g["raw"] = SimRaw(w, stream, fail_at=fail_at, name=f"disk{gi}")
+            source = io.BufferedReader(g["raw"], buffer_size=ch.pick((8192, 16, 1), "bufsize"))
         else:
             w.probe("socket_source")
             pipe = Pipe(w, name=f"pipe{gi}")
+            die_after = ch.draw(len(stream) + 1, "die_after") if g["inject"] != "none" else None
 
-            def producer(pipe=pipe, stream=stream):
+            def producer(pipe=pipe, stream=stream, die_after=die_after, inject=g["inject"]):
                 o = 0
-                while o < len(stream):
-                    n_ = 1 + ch.draw(min(len(stream) - o, 300), "wlen")
+                end = len(stream) if die_after is None else die_after
+                while o < end:
+                    n_ = 1 + ch.draw(min(end - o, 300), "wlen")
                     yield ("send", pipe, stream[o:o + n_])
                     o += n_
                     if ch.chance(1, 3, "pdelay"):
                         yield ("sleep", ch.pick((1_000, 1_000_000, 50_000_000), "sleep"))
-                yield ("fin", pipe)
+                if inject == "rst":
+                    yield ("rst", pipe)
+                elif inject == "stall_timeout":
+                    return                       # the link stalls: no FIN, the receive timeout must fire
+                else:
+                    yield ("fin", pipe)
             w.spawn(f"producer{gi}", producer())
             source = SimSocket(w, pipe, take=lambda avail: 1 + ch.draw(avail, "take_n"), name=f"sock{gi}")
+            if g["inject"] == "stall_timeout":
+                source.settimeout(2.0)
+            g["sock"] = source
             socks.append(source)
         g["gen"] = defs[g["di"]].packet_generator(source, skip_header_bytes=g["k"], buffer_read_size_bytes=g["rs"], **g["opts"])
         g["items"], g["warns"], g["state"] = [], [], "live"
@@ -337,7 +360,18 @@ def run(ch, render=False):
                     except (LivenessViolation, SimDeadlock, StepBudgetExceeded) as e:
                         err = (type(e).__name__, str(e), gi)
                     except Exception as e:      # noqa: BLE001
-                        err = ("exception", f"{type(e).__name__}: {e}", gi)
+                        inj = None
+                        if g.get("sock") is not None and g["sock"].raised is not None:
+                            inj = g["sock"].raised
+                        if g.get("raw") is not None and g["raw"].raised is not None:
+                            inj = g["raw"].raised
+                        if inj is not None and (e is inj or e.__cause__ is inj or e.__context__ is inj):
+                            # the injected I/O error of THIS generator's source came out of it: that generator is over
+                            g["state"] = "failed"
+                            w.fault("source_fault_" + g["inject"])
+                            w.ev(f"gen{gi}", "io_error", type(e).__name__)
+                        else:
+                            err = ("exception", f"{type(e).__name__}: {e}", gi)
                 g["warns"] += [(w_.category.__name__, str(w_.message)) for w_ in rec]
     finally:
         for g in gens:
@@ -383,6 +417,10 @@ def run(ch, render=False):
                 break
             if g["state"] == "done":
                 ok_w = g["warns"] == exp_warns
+            elif g["state"] == "failed":
+                # the failing step may have handled (and warned about) skipped packets before the error surfaced
+                lo = upto[len(got) - 1] if got else 0
+                ok_w = len(g["warns"]) >= lo and g["warns"] == exp_warns[:len(g["warns"])]
             elif got:
                 # abandoned after m items: warnings seen so far are those of every packet up to the one that produced item m
                 # (more may follow if the abandoned step was cut inside skipped packets -- it was not: close() happens between steps)
